@@ -73,3 +73,13 @@ def bounded(pack, tier, pid='C19'):
     for w in mism2[:1]:
         pack.violation('%s/andes/system.py:System.collect_ref/bounded:backref-lists-are-the-exact-inverse' % pid,
                        {'bounded': True, 'inputs': w, 'native_cmd': 'contracts/bounded_backref.py'})
+    from contracts import bounded_registry as BR
+    rname = '%s/andes/system.py:System.add;GroupBase.add;get_next_idx;idx2uid/bounded:registries-built-with-explicit,automatic,repeated-and-mixed-indices-stay-bijective' % pid
+    r = native_guard(pack, rname, lambda: BR.run(getattr(pack, 'seed', 0) or 0))
+    if r is not None:
+        n3, bad3 = r
+        pack.bounded.append({'function': 'System.add / GroupBase.add / get_next_idx / idx2uid / idx2model (sequences of additions)', 'calls': n3,
+                             'kind': 'bounded native: 4 seeded sequences of 30 additions over Bus, PV, Slack with proposals None, 0, "0", 1, "1", 7, names, 2.0',
+                             'counted_as_proved': False})
+        if bad3:
+            pack.violation(rname, {'bounded': True, 'inputs': bad3, 'native_cmd': 'contracts/bounded_registry.py'})
